@@ -385,6 +385,8 @@ bool compareStep(const std::string &input, const std::string &history, const Cal
         bad = "parsedSize " + std::to_string(tk.parsedSize()) + ", expected " + std::to_string(rt.parsed);
     if (!bad.empty()) { V::failKey(std::string("tokenizer:") + topName(c.op), "input '" + V::esc(input) + "': " + who + bad); return false; }
     const bool consumed = rt.buf.size() != before;
+    if (consumed && input.size() >= 3 && (nTokCalls % 200003) == 7)
+        V::sample("input '" + V::esc(input) + "': " + who + (ro.hasToken ? "token '" + V::esc(ro.token) + "', " : std::string()) + "remaining '" + V::esc(rt.buf) + "'");
     const char *cls = before == 0 ? ":empty-input" : (consumed ? ":consumed" : (ro.threwInsufficient || ro.threwOther ? ":threw" : ":refused"));
     V::outcome(std::string("tok:") + topName(c.op) + cls);
     return true;
